@@ -361,6 +361,8 @@ OnRet(m00, e) ==
                IN Flag(mL, late # {}, "C10", "cleaning actions " \o ToString(late) \o " had not run when the drop of their Cleaner returned")
           [] op = "clean" /\ ~pan ->
                Flag(mL, fr.aux = 1 /\ fr.c.c \in DOMAIN mL.acts /\ mL.acts[fr.c.c].runs = 0 /\ ~mL.faulted, "C10", "clean() did not run its cleaning action although the Cleaner was alive")
+          [] op = "wnew" ->
+               Flag(mL, res # "none" \/ Get(e, "wsc", 0) # 0 \/ Get(e, "wwc", 0) # 0 \/ ~Get(e, "peq", TRUE), "C08", "Weak::new() upgrades or reports non-zero counts")
           [] op = "wprobe" ->
                Flag(mL, res # "none" \/ Get(e, "wsc", 0) # 0, "C14", "the Weak given to the new_cyclic closure is not dead inside the closure")
           [] op = "newcyc" ->
